@@ -58,6 +58,34 @@ PROPS = {
         "assumptions": ASSUME_COMMON + ["input-space exploration executed through the simulator (the property quantifies over inputs; the schedule-dependent part is buffer recycling)",
                                         "with --iplen only the verbatim field and the fields not derived from lengths are checked"],
     },
+    "C07": {
+        "level": "exploration",
+        "rule": "library level: real NewPacketSource + NewPacketMultiGenerator(N in 1..64) + NewSender + NewReceiver + PacketEngine.Start (mergeErrChan) between a simulated request generator (0..400 requests, error requests at chosen positions incl. bursts > 100, unbuffered/buffered channel, failing start), an id-carrying test filler (build errors), a recording writer (stalls, failing k-th write, before/after snapshot) and a reader injecting unknown errors; pool reuse decided by the seed; command level: full packet scans with stalling/failing NIC; oracle = multiset of bytes handed to the writer equals the independently built frames, no frame altered in flight, error stream = failed requests + builds + writes + reads each once, completion observed only when no write is in flight; distinct = (sizes, error positions, trace hash)",
+        "suites": [{"name": "C07-pipeline", "quick": 6000, "thorough": 150000, "budget_quick": 100, "budget_thorough": 1200},
+                   {"name": "C07-cmd", "quick": 1200, "thorough": 20000, "budget_quick": 100, "budget_thorough": 900}],
+        "expect_probes": ["pool-reuse", "errors-over-100", "requests-over-buffers", "select-2-ready"],
+        "components": {"real": ["pkg/scan/generator.go, engine.go (packetSource, PacketEngine, mergeErrChan), pkg/packet/sender.go, receiver.go, memory.go (instrumented)", "gopacket SerializeBuffer"],
+                       "stub": ["RequestGenerator, PacketFiller, packet.Writer, packet.Reader (library level)", "scheduler, clock, sync.Pool (simrt.Pool)"]},
+        "assumptions": ASSUME_COMMON + ["data races are visible only through their consequences (altered / wrong frames)"],
+    },
+    "C08": {
+        "level": "exploration",
+        "rule": "library level: real GenericEngine + ResultChan (capacity 1/10/1000) + optional rate-limited scanner + real startScanEngine + real JSON logger, with a recording Scanner (latency, positive/negative/failing per request by hash) and a simulated generator (0..1500 requests, error requests, failing start), workers in {1,2,3,7,100,1000}, exit delay >= default, slow stdout; command level: `sx socks` against endpoint populations of 14 behaviours; oracle = every error-free request probed exactly once, records = positive probes each once, error records = failed probes + error requests each once, return >= last probe end + exit delay, no probe in flight at return; distinct = (sizes, mix, trace hash)",
+        "suites": [{"name": "C08-engine", "quick": 1600, "thorough": 30000, "budget_quick": 100, "budget_thorough": 1200},
+                   {"name": "C08-sockscmd", "quick": 1200, "thorough": 20000, "budget_quick": 100, "budget_thorough": 1200}],
+        "expect_probes": ["results-over-1000", "errors-over-100", "100-probes-in-flight"],
+        "components": {"real": ["pkg/scan/engine.go (GenericEngine, rateLimitScanner), result.go, command/root.go startScanEngine, command/log (instrumented)", "command level: the whole socks command, socks5 scanner"],
+                       "stub": ["scan.Scanner + RequestGenerator (library level)", "TCP (simnet)", "scheduler, clock, stdout, zap sink"]},
+        "assumptions": ASSUME_COMMON + ["docker/elastic commands are covered at probe level in C10"],
+    },
+    "C09": {
+        "level": "fault_enumeration",
+        "rule": "case = one real socks5.Scanner.Scan against one scripted endpoint on simulated TCP: run indexes enumerate every two-byte reply 0x0000..0xffff (thorough; a 2048-reply spread in quick) sent after reading the greeting; the rest draw connect outcome (accept / refuse / blackhole / connect time around the dial timeout), how much of the greeting the server reads (0..3 bytes), a fault (close, reset, stall, one byte then stall/close/reset, split reply with pause, extra bytes, flood, reply then close/reset), latencies inside or around the data timeout, timeouts in {50ms, 2s, 5s}, cancel at a virtual instant; oracle = reported iff connected and the first two bytes sent arrive within the per-read budget and are 05 00 (ambiguous cases: exact-deadline ties, cancel, reset after reply), record carries the probed address, server received a prefix of 05 01 00, duration <= dial + 3 x data timeout, return <= 1 ms after cancel, no goroutine of the call left",
+        "suites": [{"name": "C09-socksprobe", "quick": 12000, "thorough": 200000, "budget_quick": 100, "budget_thorough": 1500,
+                    "enum": {"what": "all 65536 two-byte replies (thorough) / 2048-reply spread (quick)", "quick": 2048, "thorough": 65536}}],
+        "components": {"real": ["pkg/scan/socks5 (instrumented)"], "stub": ["TCP connection and server (simnet)", "scheduler, clock"]},
+        "assumptions": ASSUME_COMMON + ["simnet models TCP close/reset/buffering (first write after peer close succeeds; reset may discard queued bytes)"],
+    },
     "C12": {
         "level": "fault_enumeration",
         "rule": "case = one full command execution (packet scans incl. chunked/VPN/rate-limited, socks scans with 1..100 workers and stalled/flooding/black-holed endpoints) with NIC stalls, NIC error bursts (> 100 errors), slow stdout, duplicated/unsolicited traffic, and Ctrl-C delivered at scheduling step k or at a virtual instant; thorough: 24 base executions x every k in 1..1500 (blocks of run indexes share scenario and schedule), the rest k / t drawn; oracle = no panic, command returns, return within a sound bound after Ctrl-C (items taken after the cancel x (stall + limiter interval)), <= 64 probes after Ctrl-C, stdout = complete records; distinct = (command, cancel step/time, trace hash); non-trivial = Ctrl-C fired before normal completion",
@@ -108,6 +136,12 @@ for _p in PENDING:
         NOT_APPLICABLE.append({"property_id": _p, "reason": "check under construction in this session - not claimed yet (planned in DESIGN.md section 4)"})
 
 MANIFEST_TEXT = {
+    "C07": {"text": "The real packet pipeline stages run under the seeded scheduler between simulated request generator, filler, writer and reader; frames carry ids so that the multiset on the wire is compared byte for byte with independently built frames, every injected failure must appear exactly once on the error stream, and completion may only be observed when no write is in flight. Buffer-pool reuse is a seeded decision, so premature recycling shows as an altered or wrong frame. The same oracles run on full commands with a stalling / failing NIC.",
+            "note": "Schedules, sizes and fault positions are sampled. Races are detected by consequence only."},
+    "C08": {"text": "The real generic engine, result channel, startScanEngine and logger run with a recording scanner whose latency and outcome per request are seeded; worker counts up to 1000 and streams beyond the 1000/100-slot buffers. Each request must be probed exactly once, each outcome reported exactly once, and the scan may only return after the last probe plus the exit delay. `sx socks` runs against populations of simulated endpoints.",
+            "note": "Sampled; docker/elastic at command level are not part of this check."},
+    "C09": {"text": "The real SOCKS5 probe runs against one scripted server on a simulated TCP connection with deadlines on the virtual clock. All 65536 two-byte replies are enumerated (thorough); server faults at every protocol step, timeout settings and cancel instants are drawn. The virtual clock makes the time bound exact.",
+            "note": "TCP is modelled (simnet); exact-deadline ties and reset-after-reply are treated as ambiguous."},
     "C12": {"text": "Ctrl-C is injected into full command executions at a chosen scheduling step or virtual instant, while stalls, error bursts, rate limits and slow consumers keep buffers full or empty. The thorough tier enumerates every step 1..1500 of 24 base executions as the cancel point; otherwise cancel points are drawn. Oracles: no panic (send on closed channel, double close), the command returns, it returns within a sound bound, few probes after the cancel, stdout is a sequence of complete records.",
             "note": "Crash points are scheduler steps of the instrumented program (every channel op / select / go / close / cancel / lock / I/O seam). Leaks after return are not alarmed on."},
     "C15": {"text": "Departure times of every probe are read on the virtual clock, so the spacing bound with the limiter's documented slack is checked exactly over every window of consecutive probes, as is charge-once (upper bound in stall-free runs) and that replies are printed at their arrival instant while sending is throttled.",
